@@ -26,6 +26,10 @@ FaultKinds == {"rpc-error", "malformed", "wrong-id", "close-before", "close-afte
                (* other shapes of an error reply: next to the positive indication (either order), after a warning, *)
                (* with the base namespace bound to a prefix                                                       *)
                "error+ok", "ok+error", "warning+error", "prefixed-error",
+               (* ... with warnings after the error; with the other error-tags of RFC 6241 appendix A; results that count *)
+               (* zero errors and say nothing else                                                                       *)
+               "error+warning", "error+warning+warning", "tag:data-missing", "tag:data-exists", "tag:in-use", "tag:access-denied",
+               "tag:unknown-element", "no-ok-count0",
                (* not a fault: a positive reply that is overtaken by the reply to the next request *)
                "late-ok"}
 FaultCases ==
@@ -35,6 +39,7 @@ FaultCases ==
 FaultOk(c) == /\ (c.target = "load" => c.index <= c.n)
               /\ (c.kind = "delayed-error" => c.index < c.n)        \* released by a later load
               /\ (c.kind = "no-ok" => c.target \in {"load", "commit", "close-session"})
+              /\ (c.kind = "no-ok-count0" => c.target = "load")
               /\ (c.kind = "junos-error" => c.target = "commit")     \* <commit-results> with the error inside <routing-engine>
 
 (* C03 / C15: evaluation outcome classes of a policy, and whether it is installed already *)
